@@ -457,6 +457,69 @@ impl std::io::Read for Dribble {
     }
 }
 
+/// a writer that accepts at most `chunk` bytes per write() call (short writes are legal for io::Write)
+struct ShortWriter {
+    data: Vec<u8>,
+    chunk: usize,
+}
+impl std::io::Write for ShortWriter {
+    fn write(&mut self, buf: &[u8]) -> std::io::Result<usize> {
+        let n = buf.len().min(self.chunk);
+        self.data.extend_from_slice(&buf[..n]);
+        Ok(n)
+    }
+    fn flush(&mut self) -> std::io::Result<()> {
+        Ok(())
+    }
+}
+
+/// Oracle 1 (harness only, op 99): the bit iterator of a vector of 2^32 + 8 bits (all zero but two) against
+/// the same calls on a range iterator over the indices.  Lazily zeroed storage; every call used is O(1).
+fn huge_iter_oracle<A: BitVector>() -> bool {
+    let n: usize = (1usize << 32) + 8;
+    let hot = [n - 3, (1usize << 32) - 2];
+    let mut v = A::zeros(n);
+    for h in hot {
+        v.set(h, Bit::One);
+    }
+    let bit = |i: usize| if hot.contains(&i) { Bit::One } else { Bit::Zero };
+    let mut ok = true;
+    {
+        let it = v.iter();
+        let r = 0..n;
+        ok &= it.size_hint() == r.size_hint();
+        ok &= v.iter().count() == n;
+        ok &= v.iter().last() == Some(bit(n - 1));
+        ok &= v.iter().rev().nth(2) == Some(bit(n - 3));
+    }
+    let mut it = v.iter();
+    let mut r = 0..n;
+    for step in [0usize, 5, 1 << 31, (1 << 31) - 9, 0, 1, 3, 1 << 32] {
+        let (x, y) = (it.nth(step), r.nth(step));
+        ok &= x == y.map(bit) && it.size_hint() == r.size_hint();
+        let (x, y) = (it.next_back(), r.next_back());
+        ok &= x == y.map(bit) && it.size_hint() == r.size_hint();
+    }
+    let mut it = v.iter();
+    let mut r = 0..n;
+    for step in [2usize, 5, 0, 1 << 32, 0] {
+        let (x, y) = (it.nth_back(step), r.nth_back(step));
+        ok &= x == y.map(bit) && it.size_hint() == r.size_hint();
+        let (x, y) = (it.next(), r.next());
+        ok &= x == y.map(bit);
+    }
+    ok
+}
+
+fn oracle(c: &Case) -> Res {
+    let ok = match (c.a(0), c.a(1)) {
+        (1, 14) => huge_iter_oracle::<Bvd>(),
+        (1, _) => huge_iter_oracle::<Bv>(),
+        _ => return Res::Err(97, 9),
+    };
+    n1(ok as u128)
+}
+
 enum It<'a, A: BitVector> {
     F(bva::BitIterator<'a, A>),
     R(std::iter::Rev<bva::BitIterator<'a, A>>),
@@ -617,10 +680,19 @@ fn unary<A: Extra + Extend<Bit>>(c: &Case) -> Res {
         21 => n1(a.len() as u128),
         22 => l1(a.to_vec(endian(c.a(0))).iter().map(|b| *b as u128).collect()),
         23 => {
-            let mut buf: Vec<u8> = vec![];
-            match a.write(&mut buf, endian(c.a(0))) {
-                Ok(()) => l1(buf.iter().map(|b| *b as u128).collect()),
-                Err(e) => io_code(&e),
+            // arg 1: 0 = Vec<u8>; 1 / 2 = a writer that accepts at most one / three bytes per write() call
+            if c.a(1) == 0 {
+                let mut buf: Vec<u8> = vec![];
+                match a.write(&mut buf, endian(c.a(0))) {
+                    Ok(()) => l1(buf.iter().map(|b| *b as u128).collect()),
+                    Err(e) => io_code(&e),
+                }
+            } else {
+                let mut w = ShortWriter { data: vec![], chunk: if c.a(1) == 1 { 1 } else { 3 } };
+                match a.write(&mut w, endian(c.a(0))) {
+                    Ok(()) => l1(w.data.iter().map(|b| *b as u128).collect()),
+                    Err(e) => io_code(&e),
+                }
             }
         }
         24 => n1(bit_n(a.get(c.a(0) as usize))),
@@ -938,6 +1010,7 @@ fn exec_inner(c: &Case) -> Res {
         }
         37 => with_kind!(c.vals[0].kid, A => hash_pair::<A>(c)),
         90..=97 => crate::hooks::exec_hook(c),
+        99 => oracle(c),
         _ => with_kind!(c.vals[0].kid, A => unary::<A>(c)),
     }
 }
